@@ -465,9 +465,12 @@ class Bench:
             y = self._pd(x, op)
             nz = np.asarray(y.noise, dtype=float)[2048:-2048]
             est = float(np.var(nz)) / (R * R)
-            neff = nz.size * min(1.0, 2 * op["BWf"])
+            # effective number of independent samples of the filtered noise, from the filter's own power response
+            S = np.abs(np.fft.fft(h)) ** 2
+            neff = nz.size * float(S.sum() ** 2 / (S.size * (S ** 2).sum()))
             band = 6 * np.sqrt(2.0 / max(neff, 8))
-            if abs(est - v * g) > band * v * g + 1e-40:
+            floor = (1e-9 * float(np.max(np.abs(nz))) / R) ** 2 + 1e-40      # rounding residue of the deterministic part
+            if abs(est - v * g) > band * v * g + floor:
                 raise Violation("C09/variance", f"{what}: (fallback) sample variance {est:.4e} A^2 vs documented "
                                                 f"{v * g:.4e} A^2 (after filter), outside six sigma", "variance/fallback")
 
